@@ -857,8 +857,11 @@ def run(ctx):
         "breadth-first search Net.dist of property C03, proved equal to the specification pathLen (pathLen_is_bfs, "
         "path_lengths_are_least_walk_lengths) and compared with path_lengths() of the objects",
         "retarded/advanced/trans betweenness: modelled by property C03's model of the kernel _nsi_betweenness; the "
-        "reversal theorems are about the pair-dependency definition betwSpec; kernel model == definition is compared "
-        "on every sampled case (driver), not proved",
+        "kernel model == published count over enumerated shortest paths (NetBetw.interregionalCount) is proved for every "
+        "symmetric matrix (betweenness_kernel_eq_count, visibility_betweenness_kernel_eq_count; C03's kernel proof "
+        "nsiBetweenness_eq_def_full with its three hypotheses discharged); the reversal theorems are about the walk-count "
+        "writing betwSpec of the same definition; betwSpec == interregionalCount is compared on every sampled case "
+        "(driver), not proved",
         "binary32: rndF32 is proved round-to-nearest-even onto m*2^e (|m| < 2^24, e >= -149) and monotone; that the "
         "machine's float arithmetic is this function is compared (rnd32 correspondence: conversion, subtraction, "
         "division), overflow is outside the model"]
@@ -1123,7 +1126,7 @@ def run(ctx):
                 b3 = betw_observables(obs["vg"])
                 breqs.append(f"betw {enc_vals(xx)} {'-' if t is None else enc_vals(t)} "
                              f"{int(missing)} {int(hor)}")
-                bimpl.append("|".join(b3 + b3))
+                bimpl.append("|".join(b3 + b3 + b3))   # kernel model, betwSpec, interregionalCount (5b)
                 ctx.count("object:with-betweenness")
             # round 4: path_lengths() of the object against the BFS of the model (Net.dist, C03's
             # model of graph.distances(); theorem pathLen_is_bfs) and against Floyd-Warshall on the
@@ -1175,8 +1178,13 @@ def run(ctx):
     ctx.correspond("Lean classMat/degree/clustering/closeness model == VisibilityGraph", oreqs, oimpl)
     ctx.correspond("Lean classMat == visibility_relations() / visibility_relations_horizontal() "
                    "called again on live objects", hreqs, himpl)
+    # round 5b: kernel model == interregionalCount is now a theorem for every symmetric matrix
+    # (betweenness_kernel_eq_count, from C03's NetBetw.nsiBetweenness_eq_def_full); the comparison stays as a
+    # correspondence of model and definitions with the implementation - it is not a hypothesis of any theorem.
     ctx.correspond("retarded/advanced/trans betweenness: C03's kernel model (retBetw, advBetw, transBetw) "
-                   "== pair-dependency definition betwSpec == VisibilityGraph", breqs, bimpl)
+                   "== pair-dependency definition betwSpec == count over enumerated shortest paths "
+                   "(NetBetw.interregionalCount, proved equal to the kernel model; not a hypothesis of a theorem) "
+                   "== VisibilityGraph", breqs, bimpl)
     ctx.extra["betweenness_cases_compared"] = len(breqs)
     ctx.correspond("path_lengths(): breadth-first search Net.dist (C03's model) == specification pathLen "
                    "== VisibilityGraph.path_lengths()", preqs, pimpl)
